@@ -8,6 +8,8 @@
   (`copyRoot`, Model/FcloneSpec.lean) and read the statements below off that copy.
 -/
 import XotModel.Lemmas.FcloneMain
+import XotModel.Lemmas.FcloneStrict
+import XotModel.Lemmas.FcloneLocal4
 import XotModel.Model.FcloneModel
 import XotModel.Generated
 
@@ -86,6 +88,47 @@ theorem C12_equal (f : Forest) (inv : f.Inv) (node c : Nat) (src : HTree)
   cases hc
   exact ⟨C, h3, h6⟩
 
+/-- While consolidation has never been switched off (`everOff = false`) a forest has no adjacent
+    text nodes, so the clone is literally equal to the source. -/
+theorem C12_equal_strict (f : Forest) (inv : f.Inv) (hoff : f.everOff = false) (node c : Nat)
+    (src : HTree) (hsrc : f.get? node = some src) (hc : (f.cloneNode node).2 = some c) :
+    ∃ C, (f.cloneNode node).1.get? c = some C ∧ C.erase = src.erase := by
+  obtain ⟨C, f', h1, _, h3, _, _, h6, -⟩ := cloneNode_full f inv node src hsrc
+  rw [h1] at hc ⊢
+  cases hc
+  refine ⟨C, h3, ?_⟩
+  rw [h6]
+  have hv := inv.valid_get hsrc
+  rw [hoff] at hv
+  exact expectedClone_strict _ src hv
+
+/-- Locality: a root that shares no handle with the other roots is left exactly as it is by any
+    history of `append / prepend / insert_after / insert_before / detach / remove` and of the
+    text / comment / PI / element-name setters whose node arguments all lie outside it (whatever
+    the calls return). -/
+theorem C12_locality (f : Forest) (r : HTree) (ops : List EditOp) (hs : Sep r f)
+    (hargs : ∀ op ∈ ops, ∀ a ∈ op.args, a ∉ HTree.handles r) :
+    r ∈ (f.edits ops).roots ∧ Sep r (f.edits ops) :=
+  ⟨(hs.edits ops hargs).mem, hs.edits ops hargs⟩
+
+/-- Independence: after `clone_node`, any later history of such calls on nodes outside the clone
+    (in particular: on the source's tree) leaves the clone untouched, and any history on nodes
+    outside an old tree `r` (in particular: on the clone; `r` = the tree containing the source)
+    leaves `r` untouched. -/
+theorem C12_independent (f : Forest) (inv : f.Inv) (node c : Nat) (live : f.isLive node = true)
+    (hc : (f.cloneNode node).2 = some c) :
+    ∃ C, (f.cloneNode node).1.get? c = some C ∧
+      (∀ ops : List EditOp, (∀ op ∈ ops, ∀ a ∈ op.args, a ∉ HTree.handles C) →
+        C ∈ ((f.cloneNode node).1.edits ops).roots) ∧
+      (∀ r ∈ f.roots, ∀ ops : List EditOp, (∀ op ∈ ops, ∀ a ∈ op.args, a ∉ HTree.handles r) →
+        r ∈ ((f.cloneNode node).1.edits ops).roots) := by
+  obtain ⟨src, hsrc⟩ := (Forest.isLive_iff f node).mp live
+  obtain ⟨C, f', h1, h2, h3, h4, -⟩ := cloneNode_full f inv node src hsrc
+  obtain ⟨g3, g4⟩ := sep_after_clone f inv C f' h2 (fun a ha => (h4 a ha).1)
+  rw [h1] at hc ⊢
+  cases hc
+  exact ⟨C, h3, fun ops h => (g3.edits ops h).mem, fun r hr ops h => ((g4 r hr).edits ops h).mem⟩
+
 /-- `Xot::clone()` is the identity on the model value … -/
 theorem C12_store (s : Store) : s.clone = s := rfl
 
@@ -113,5 +156,8 @@ example : exForest.Inv := (Forest.inv_iff _).mp (by decide)
 example : exForest.isLive 3 = true := by decide
 example : (exForest.cloneNode 3).2 = some 7 := by decide +kernel
 example : (exForest.cloneNode 0).2 = some 6 := by decide +kernel
+example : exForest.everOff = false := rfl
+/-- a history on the source's tree whose arguments avoid the clone -/
+example : ∀ op ∈ [EditOp.setText 5 ['y'], EditOp.remove 4, EditOp.append 1 5], ∀ a ∈ op.args, a < 6 := by decide
 
 end XotModel.Props
